@@ -137,51 +137,54 @@ theorem escBy_id (S : Nat → Bool) (s : Bytes) (h : ∀ b ∈ s, S b = false) :
 theorem needsEscape_false (tags : List Tag) (h : needsEscape tags = false) :
     ∀ t ∈ tags, escBy isTagSpecial t.key = t.key ∧ escBy isTagSpecial t.value = t.value := by
   intro t ht
-  unfold needsEscape tagEscapeCodes at h
-  have h' := (List.any_eq_false.mp h) t ht
-  simp only [List.any_cons, List.any_nil, Bool.or_false, Bool.or_eq_false_iff] at h'
-  obtain ⟨⟨hk1, hv1⟩, ⟨hk2, hv2⟩, ⟨hk3, hv3⟩⟩ := h'
-  constructor
-  · apply escBy_id; intro b hb
-    have : b ≠ cComma := by intro e; subst e; simp_all
-    have : b ≠ cSpace := by intro e; subst e; simp_all
-    have : b ≠ cEq := by intro e; subst e; simp_all
-    simp [isTagSpecial, *]
-  · apply escBy_id; intro b hb
-    have : b ≠ cComma := by intro e; subst e; simp_all
-    have : b ≠ cSpace := by intro e; subst e; simp_all
-    have : b ≠ cEq := by intro e; subst e; simp_all
-    simp [isTagSpecial, *]
+  have hb : ∀ b, (b ∈ t.key ∨ b ∈ t.value) → isTagSpecial b = false := by
+    intro b hb
+    cases hsp : isTagSpecial b with
+    | false => rfl
+    | true =>
+      exfalso
+      have : needsEscape tags = true := by
+        unfold needsEscape
+        refine List.any_eq_true.mpr ⟨t, ht, ?_⟩
+        unfold tagEscapeCodes
+        have hc : (b = cComma ∨ b = cSpace) ∨ b = cEq := by simpa [isTagSpecial] using hsp
+        rcases hc with (rfl | rfl) | rfl <;> rcases hb with hb | hb <;> simp [hb]
+      rw [h] at this; cases this
+  exact ⟨escBy_id _ _ (fun b hm => hb b (Or.inl hm)), escBy_id _ _ (fun b hm => hb b (Or.inr hm))⟩
+
+theorem isEmpty_escBy (S : Nat → Bool) (s : Bytes) : (escBy S s).isEmpty = s.isEmpty := by
+  cases s with
+  | nil => rfl
+  | cons b r => simp only [escBy_cons]; split <;> rfl
 
 /-- `AppendHashKey` writes `,k=v` with both sides escaped, for every tag with a value -/
 theorem appendHashKey_eq (tags : List Tag) :
     appendHashKey tags = tagsText (tags.filter fun t => !t.value.isEmpty) := by
-  have key : ∀ (l : List Tag), (∀ t ∈ l, True) →
-      (l.map (fun t => (⟨escapeTag t.key, escapeTag t.value⟩ : Tag))).flatMap
+  have key : ∀ (l : List Tag),
+      (l.map (fun t => (⟨escBy isTagSpecial t.key, escBy isTagSpecial t.value⟩ : Tag))).flatMap
         (fun t => if t.value.isEmpty then [] else cComma :: t.key ++ cEq :: t.value)
       = tagsText (l.filter fun t => !t.value.isEmpty) := by
-    intro l _
+    intro l
     induction l with
     | nil => rfl
     | cons t ts ih =>
-      simp only [List.map_cons, List.flatMap_cons, ih, List.filter_cons]
-      by_cases hv : t.value = []
-      · simp [hv, escapeTag_eq]
-      · have : escapeTag t.value ≠ [] := by rw [escapeTag_eq]; simpa [escBy_eq_nil] using hv
-        simp [hv, this, tagsText_cons, tagText, escapeTag_eq]
+      simp only [List.map_cons, List.flatMap_cons, ih, List.filter_cons, isEmpty_escBy]
+      by_cases hv : t.value.isEmpty = true
+      · simp [hv]
+      · simp [hv, tagsText_cons, tagText]
   unfold appendHashKey
   by_cases hn : needsEscape tags = true
-  · simp only [hn, if_true]; exact key tags (fun _ _ => trivial)
+  · simp only [hn, if_true, escapeTag_eq]; exact key tags
   · have hn' : needsEscape tags = false := by simpa using hn
     have hid := needsEscape_false tags hn'
     simp only [hn', Bool.false_eq_true, if_false]
-    rw [← key tags (fun _ _ => trivial)]
+    rw [← key tags]
     congr 1
     rw [List.map_congr_left (g := id)]
     · simp
     · intro t ht
       obtain ⟨h1, h2⟩ := hid t ht
-      simp [escapeTag_eq, h1, h2]
+      simp [h1, h2]
 
 theorem walkTagsLoop_nil (he : Bool) (fuel : Nat) : walkTagsLoop he fuel [] = [] := by
   cases fuel <;> rfl
@@ -246,5 +249,128 @@ theorem walkTagsLoop_tagsText (he : Bool) (ts : List Tag) (fuel : Nat) (hf : ts.
     | false =>
       obtain ⟨h1, h2⟩ := hhe rfl t (by simp)
       simp [escBy_no_bs _ _ h1, escBy_no_bs _ _ h2]
+
+/-! ### `scanMeasurement`, `walkTags`, `ParseKeyBytes` on a key written by `MakeKey` -/
+
+theorem scanMeasurement_escBy_end (name : Bytes) (hne : name ≠ []) :
+    scanMeasurement (escBy isMeasSpecial name) = (escBy isMeasSpecial name, .eof) := by
+  cases name with
+  | nil => exact absurd rfl hne
+  | cons b r =>
+    simp only [escBy_cons]
+    by_cases hb : isMeasSpecial b = true
+    · simp only [hb, if_true]
+      rw [scanMeasurement, if_neg (by decide), scanMeasAux]
+      simp [scanMeasAux_escBy_end]
+    · have hbc : b ≠ cComma := by intro h; rw [h] at hb; exact hb (by decide)
+      simp only [hb, Bool.false_eq_true, if_false]
+      rw [scanMeasurement, if_neg hbc]
+      simp [scanMeasAux_escBy_end]
+
+theorem scanMeasurement_escBy_comma (name rest : Bytes) (hne : name ≠ []) (hl : noTB name) :
+    scanMeasurement (escBy isMeasSpecial name ++ cComma :: rest) = (escBy isMeasSpecial name, .tags rest) := by
+  have hl' := lastIsBS_false_of_noTB name hl
+  cases name with
+  | nil => exact absurd rfl hne
+  | cons b r =>
+    simp only [lastIsBS] at hl'
+    simp only [escBy_cons]
+    by_cases hb : isMeasSpecial b = true
+    · simp only [hb, if_true, List.cons_append]
+      rw [scanMeasurement, if_neg (by decide), scanMeasAux]
+      simp [scanMeasAux_escBy_comma _ _ _ hl']
+    · have hbc : b ≠ cComma := by intro h; rw [h] at hb; exact hb (by decide)
+      simp only [hb, Bool.false_eq_true, if_false, List.cons_append]
+      rw [scanMeasurement, if_neg hbc]
+      simp [scanMeasAux_escBy_comma _ _ _ hl']
+
+theorem length_le_count_tagsText (ts : List Tag) : ts.length ≤ (tagsText ts).count cComma := by
+  induction ts with
+  | nil => simp [tagsText]
+  | cons t ts ih =>
+    rw [tagsText_cons]
+    simp only [List.cons_append, List.count_cons_self, List.count_append, List.length_cons]
+    omega
+
+theorem mem_tagsText_key (ts : List Tag) (t : Tag) (ht : t ∈ ts) (b : Nat)
+    (hb : b ∈ escBy isTagSpecial t.key ∨ b ∈ escBy isTagSpecial t.value) : b ∈ tagsText ts := by
+  induction ts with
+  | nil => cases ht
+  | cons u us ih =>
+    rw [tagsText_cons]
+    rcases List.mem_cons.mp ht with rfl | h
+    · simp only [tagText, List.cons_append, List.append_assoc, List.mem_cons, List.mem_append]
+      rcases hb with hb | hb <;> simp [hb]
+    · simp only [List.cons_append, List.mem_cons, List.mem_append]
+      right; right; exact ih h
+
+/-- `ParseKeyBytes(MakeKey(name, tags))` for a name and tags whose components do not end in a
+    backslash and whose name is its own unescaped form: the name and the tags that have a
+    value, in the order given. -/
+theorem parseKeyBytes_makeKey (name : Bytes) (tags : List Tag)
+    (hne : name ≠ []) (hl : noTB name) (hun : unescapeMeasurement name = name)
+    (ht : ∀ t ∈ tags, t.value ≠ [] → noTB t.key ∧ noTB t.value) :
+    parseKeyBytes (makeKey name tags) = some (name, tags.filter fun t => !t.value.isEmpty) := by
+  unfold makeKey
+  rw [hun, escapeMeasurement_eq, appendHashKey_eq]
+  generalize hts : (tags.filter fun t => !t.value.isEmpty) = ts
+  have hts' : ∀ t ∈ ts, t.value ≠ [] ∧ noTB t.key ∧ noTB t.value := by
+    intro t h
+    rw [← hts] at h
+    obtain ⟨hm, hv⟩ := List.mem_filter.mp h
+    have hv' : t.value ≠ [] := by intro e; simp [e] at hv
+    exact ⟨hv', ht t hm hv'⟩
+  unfold parseKeyBytes
+  cases ts with
+  | nil =>
+    simp only [tagsText, List.flatMap_nil, List.append_nil]
+    rw [scanMeasurement_escBy_end _ hne]
+    simp [unescapeMeasurement_escBy]
+  | cons t ts' =>
+    rw [tagsText_cons, List.cons_append]
+    rw [scanMeasurement_escBy_comma _ _ hne hl]
+    simp only [unescapeMeasurement_escBy]
+    have hE : escBy isMeasSpecial name ≠ [] := by simpa [escBy_eq_nil] using hne
+    have hwalk : walkTags (escBy isMeasSpecial name ++ cComma :: (tagText t ++ tagsText ts')) = t :: ts' := by
+      unfold walkTags
+      have hs := scanTo_escBy isMeasSpecial cComma (by decide) (by decide) name false
+        (tagText t ++ tagsText ts') (lastIsBS_false_of_noTB _ hl)
+      have hemp : (escBy isMeasSpecial name ++ cComma :: (tagText t ++ tagsText ts')).isEmpty = false := by
+        cases h : escBy isMeasSpecial name with
+        | nil => exact absurd h hE
+        | cons _ _ => rfl
+      have hemp2 : (escBy isMeasSpecial name).isEmpty = false := by
+        cases h : escBy isMeasSpecial name with
+        | nil => exact absurd h hE
+        | cons _ _ => rfl
+      simp only [hemp, Bool.false_eq_true, if_false, hs, hemp2, List.drop_succ_cons, List.drop_zero]
+      have := walkTagsLoop_tagsText
+        ((escBy isMeasSpecial name ++ cComma :: (tagText t ++ tagsText ts')).contains cBS) (t :: ts')
+        (escBy isMeasSpecial name ++ cComma :: (tagText t ++ tagsText ts')).length ?_ hts' ?_
+      · rw [tagsText_cons] at this
+        simpa using this
+      · have h1 : (t :: ts').length ≤ (tagsText (t :: ts')).length :=
+          Nat.le_trans (length_le_count_tagsText _) List.count_le_length
+        rw [tagsText_cons] at h1
+        simp only [List.length_append, List.length_cons, List.cons_append] at h1 ⊢
+        omega
+      · intro hc u hu
+        have hc' : cBS ∉ escBy isMeasSpecial name ++ cComma :: (tagText t ++ tagsText ts') := by
+          simpa using hc
+        have hsub : ∀ b, b ∈ tagsText (t :: ts') → b ∈ escBy isMeasSpecial name ++ cComma :: (tagText t ++ tagsText ts') := by
+          intro b hb
+          simp only [tagsText_cons, List.cons_append, List.mem_append, List.mem_cons] at hb ⊢
+          rcases hb with hb | hb | hb <;> simp [hb]
+        exact ⟨fun h => hc' (hsub _ (mem_tagsText_key _ u hu _ (Or.inl h))),
+               fun h => hc' (hsub _ (mem_tagsText_key _ u hu _ (Or.inr h)))⟩
+    unfold parseTags
+    simp only [hwalk]
+    have hcount : (t :: ts').length ≤ (escBy isMeasSpecial name ++ cComma :: (tagText t ++ tagsText ts')).count cComma := by
+      have h1 := length_le_count_tagsText (t :: ts')
+      rw [tagsText_cons] at h1
+      simp only [List.count_append, List.cons_append, List.count_cons_self] at h1 ⊢
+      omega
+    rw [if_pos hcount]
+    rfl
 
 end Influx.LP
